@@ -293,3 +293,30 @@ PROPS["C10"] = dict(
     groups=[dict(mod="v2", pkg="join", overlay="harness/v2/join", harness="^VerifC10_", params=_INACC),
             dict(mod="v2", pkg="join/unite", overlay="harness/v2/unite", harness="^VerifC10_", params=_INACC),
             dict(mod="v1", pkg="join", overlay="harness/v1/join", harness="^VerifC10_", params=_INACC)])
+
+def _c20(mod, pkg, overlay, harness, q, t, scen=None):
+    g = dict(mod=mod, pkg=pkg, overlay=overlay, harness=harness, params=dict(quick=q, thorough=t), race_scenario_advisory=True)
+    if scen:
+        g["scenarios"] = [dict(msg="^C20:", file=scen, test="TestVerifScenarioC20Race", race=True)]
+    return g
+
+PROPS["C20"] = dict(
+    level="model_checking",
+    level_text="Happens-before checking by the solver over traces recorded from the real code: a complete run of each discipline is executed symbolically with the documented users as separate ROLES "
+               "(creator, producer, scheduling goroutine, handlers / consumer, control goroutine); every load / store / map access made by library code and every user access to delivered slices is an event, "
+               "channel operations, go statements, sync.Once, atomics and WaitGroups are the only cross-role order. For every pair of conflicting events of different roles the query 'two linear extensions "
+               "of happens-before disagree on the pair' must be unsat. A sat answer is replayed in the engine and, as an advisory, natively under go test -race.",
+    level_note="Bounds: the traces of the bounded runs (n<=2 inputs, H<=2 handlers, <=1-3 items, JoinSize<=2, 3 elements; v1 with AddInput/RemoveInput/GracefulStop commands). Roles are interleaved only at blocking points and "
+               "between rounds; matchings of sends and receives are those of the explored paths. breaker.Break is represented by its channel close. Not covered: v1 Simple's handler goroutines, races that need more items/handlers than the bound.",
+    technique="symbolic execution of go/ssa recording per-role access and synchronisation events; happens-before decided by SMT (integer difference constraints, z3)",
+    assumptions=_PRIO_ASSUME + ["Go memory model edges used: program order, go statement -> goroutine start, send -> matching receive, close -> receive of closed, Once.Do completion -> later Do, atomic store -> load, WaitGroup.Done -> Wait",
+                                "user goroutines are started after the constructor returned; a no-copy consumer only reads the slice it was lent; a copy-mode consumer keeps and modifies its slices for ever; a producer may keep READING what it has sent"],
+    bounds=dict(quick="v2 priority n=2,H=2,J=1; join/unite JS 1..2, 3 elements; limit 3 elements; v1 priority H=2,J=1 with 3 control commands; v1 join", thorough="v2 priority J=2, H<=3; JS<=3, 4 elements"),
+    groups=[
+        _c20("v2", "priority", "harness/v2/priority", "^VerifC20_", dict(n=[2], H=[2], J=[1]), dict(n=[2], H=[2, 3], J=[1, 2]), "replay/v2/priority/race_scenario_test.go"),
+        _c20("v2", "join", "harness/v2/join", "^VerifC20_", dict(JS=[1, 2], M=[3]), dict(JS=[1, 2, 3], M=[4]), "replay/v2/join/race_scenario_test.go"),
+        _c20("v2", "join/unite", "harness/v2/unite", "^VerifC20_", dict(JS=[1, 2], M=[3]), dict(JS=[1, 2, 3], M=[4]), "replay/v2/unite/race_scenario_test.go"),
+        _c20("v2", "limit", "harness/v2/limit", "^VerifC20_", dict(M=[3]), dict(M=[5])),
+        _c20("v1", "priority", "harness/v1/priority", "^VerifC20_", dict(H=[2], J=[1]), dict(H=[2, 3], J=[1, 2])),
+        _c20("v1", "join", "harness/v1/join", "^VerifC20_", dict(JS=[1, 2], M=[3]), dict(JS=[1, 2, 3], M=[4])),
+    ])
